@@ -27,12 +27,13 @@ type rtValue struct {
 }
 
 type replayTemplate struct {
-	Func string
-	Pkg  string
-	Ins  []rtValue
-	Outs []rtValue
-	Body string
-	Path string
+	Func  string
+	Pkg   string
+	Ins   []rtValue
+	Outs  []rtValue
+	Small []*Expr // extra constraints asked of the solver so that the counterexample is small enough to replay
+	Body  string
+	Path  string
 }
 
 func loadReplayTemplates(dir string) map[string]*replayTemplate {
@@ -63,6 +64,12 @@ func loadReplayTemplates(dir string) map[string]*replayTemplate {
 				rt.Func = strings.TrimSpace(t[6:])
 			case strings.HasPrefix(t, "#pkg "):
 				rt.Pkg = strings.TrimSpace(t[5:])
+			case strings.HasPrefix(t, "#small "):
+				if ex, err := parseExpr(strings.TrimSpace(t[7:])); err == nil {
+					rt.Small = append(rt.Small, ex)
+				} else {
+					fmt.Fprintf(os.Stderr, "govc: replay template %s: %v\n", p, err)
+				}
 			case strings.HasPrefix(t, "#in "), strings.HasPrefix(t, "#out "):
 				isIn := strings.HasPrefix(t, "#in ")
 				rest := strings.TrimSpace(t[4:])
@@ -141,6 +148,12 @@ func (tr *FnTrans) replayTerms(o *Obligation, rt *replayTemplate) (terms []strin
 		if !evalV(v, "in.") {
 			return nil, nil
 		}
+	}
+	for _, sx := range rt.Small {
+		func() {
+			defer func() { recover() }()
+			o.smallTerms = append(o.smallTerms, o.env.evalBool(sx))
+		}()
 	}
 	if strings.HasPrefix(o.Kind, "ensures") || strings.HasPrefix(o.Kind, "site-assert") {
 		for _, v := range rt.Outs {
@@ -298,6 +311,19 @@ var outRe = regexp.MustCompile(`(\w+)=(\S+)`)
 func tryReplay(o *checkOpts, ob *Obligation) *replayResult {
 	if ob.rt == nil || len(ob.valueKeys) == 0 {
 		return nil
+	}
+	if len(ob.smallTerms) > 0 && ob.tr != nil {
+		// ask for a small counterexample of the same obligation
+		txt := ob.tr.textWith(ob, ob.smallTerms)
+		if dir, err := os.MkdirTemp("", "govc-small-"); err == nil {
+			f := filepath.Join(dir, "small.smt2")
+			os.WriteFile(f, []byte(txt), 0o644)
+			r := solveOne(f, 20, o.seed, "")
+			os.RemoveAll(dir)
+			if r.answer == "sat" && len(parseGetValue(r.model)) == len(ob.valueKeys) {
+				ob.Model = r.model
+			}
+		}
 	}
 	vals := parseGetValue(ob.Model)
 	if len(vals) != len(ob.valueKeys) {
